@@ -1,5 +1,7 @@
 """C04: chirality collapse table, R-SAMESRC (lifted definitions get exactly their free variables in one order),
 R-DECLSRC (eta-expansion clauses enumerate the declaration)."""
+import re
+
 from .fresh import is_fresh_call
 from .. import interp, prov
 from ..core import RuleResult
@@ -448,7 +450,9 @@ def rule_cutkind(ctx):
     CLS = [("K0", [], "b0"), ("K1", [cb("y", 21), cb("z", 22)], "b1")]
     CLC = [("d0", [cb("y", 21)], "b0"), ("d1", [cb("y", 21), cb("z", 22)], "b1")]
 
-    def run(prod, cons, ty):
+    def run(prod, cons, ty, fv=None, multi=False):
+        """fv: the free variables declared for the symbolic bodies (name -> list of ContextBinding); None: not declared (a body whose
+        free variables the code asks for then cannot be followed)"""
         events = []
 
         def hook(I, p, fr, t, args):
@@ -456,7 +460,27 @@ def rule_cutkind(ctx):
             a0 = I.deref(args[0]) if args else None
             if n == "shrink" and (t.get("callee_trait") or "").endswith("shrinking::Shrinking") and isinstance(a0, _Sym):
                 events.append(("shrink", a0.name))
+                p.events.append(("shrink", a0.name))
                 return _Sym("sh(%s)" % a0.name)
+            if fv is not None and n in ("typed_free_vars", "free_vars") and len(args) > 1 and fr.f["crate"] != "scc_core_lang":
+                # a body, or a body whose shape a leaf test has looked at: the whole statement is the body
+                def root(v, d=0):
+                    v = I.deref(v)
+                    if isinstance(v, _Sym):
+                        return re.split(r"[.\[!{]", v.name)[0]
+                    if isinstance(v, _Adt) and d < 4:
+                        for x in v.fields.values():
+                            r_ = root(x, d + 1)
+                            if r_:
+                                return r_
+                    return None
+                rt = root(a0)
+                acc = I.deref(args[1])
+                if rt in fv and isinstance(acc, _SetVal):
+                    for b_ in fv[rt]:
+                        acc.add(b_)
+                    events.append(("fv", rt))
+                    return _Adt(None, None, {})
             if n == "subst_sim" and isinstance(a0, _Sym):
                 sub = I.deref(args[1]) if len(args) > 1 else None
                 pairs = []
@@ -476,6 +500,14 @@ def rule_cutkind(ctx):
         sfr.locals = [state]
         cut = _Adt(CL + "statements::cut::Cut", "Cut", {"producer": prod, "ty": ty, "consumer": cons})
         outs = I.run(f, [cut, _interp.Ref(sfr, 0, [])])
+        if multi:
+            # the shape of a symbolic body is looked at (leaf tests): one path per shape, each judged on its own
+            normal = [o for o in outs if not getattr(o, "diverged", None)]
+            if not normal:
+                return None, fold_verdict(outs, "R-CUTKIND: Cut::shrink"), events
+            if any("unknown" in str(c_[0]).lower() or str(c_[0]).startswith("switch@") for o in normal for c_ in o.conds):
+                raise AnalysisError("R-CUTKIND: Cut::shrink on a critical pair forks on a value the analysis cannot follow")
+            return normal, None, events
         msg = fold_verdict(outs, "R-CUTKIND: Cut::shrink")
         if msg:
             return None, msg, events
@@ -613,22 +645,96 @@ def rule_cutkind(ctx):
         ("<u - w | mu~v.s>", OP, mu(CNS, "v", V, "s", I64), I64, chk_op(V, "s")),
         ("<u - w | a>", OP, xvar(CNS, "a", A_, I64), I64, chk_op(None, None)),
     ]
+    def binder_of(term):
+        """(id, chirality of the bound (co)variable, type) of a mu / mu~ abstraction"""
+        inner = term.fields["0"]
+        if term.variant != "Mu":
+            return None
+        return inner.fields["variable"], ("Cns" if inner.fields["prdcns"].variant == "Prd" else "Prd"), inner.fields["ty"]
     for label, prod, cons, ty, chk in cases:
-        r, msg, ev = run(prod, cons, ty)
-        ikey = label
-        if msg:
-            res.inst(ikey, f["sp"]["file"], f["sp"]["line"], "violation")
-            res.violate(ikey, "%s: %s" % (label, msg), f["sp"]["file"], f["sp"]["line"])
-            continue
-        kind, st = unwrap(r)
-        try:
-            problem = chk(kind, st, ev)
-        except (KeyError, AttributeError) as e:
-            raise AnalysisError("R-CUTKIND: the translation of %s is not a concrete statement (%r)" % (label, e))
-        if problem:
-            res.inst(ikey, f["sp"]["file"], f["sp"]["line"], "violation")
-            res.violate(ikey, "%s %s" % (label, problem), f["sp"]["file"], f["sp"]["line"])
-        else:
-            res.inst(ikey, f["sp"]["file"], f["sp"]["line"], "ok")
+        # the bodies are symbolic; when the code asks for their free variables the answer is declared, once with the binder of the
+        # abstraction occurring in its body and once without (a body that never returns to / never uses what the abstraction binds)
+        bodies = {}
+        for side in (prod, cons):
+            bd = binder_of(side)
+            if bd:
+                bodies[side.fields["0"].fields["statement"].name] = _Adt(CL + "context::ContextBinding", "ContextBinding",
+                                                                        {"var": bd[0], "chi": _Adt(CL + "context::Chirality", bd[1], {}), "ty": bd[2]})
+        variants = [("", {b_: [cb_] for b_, cb_ in bodies.items()})]
+        if bodies:
+            variants.append((" [binder unused in its body]", {b_: [] for b_ in bodies}))
+        for vlabel, fv in variants:
+            try:
+                r, msg, ev = run(prod, cons, ty, fv)
+            except AnalysisError:
+                if vlabel:
+                    raise
+                r, msg, ev = run(prod, cons, ty, None)
+            asked = any(e[0] == "fv" for e in ev)
+            if vlabel and not asked:
+                continue        # the translation never looks at the free variables: one variant says it all
+            ikey = label + vlabel
+            if msg:
+                res.inst(ikey, f["sp"]["file"], f["sp"]["line"], "violation")
+                res.violate(ikey, "%s: %s" % (label + vlabel, msg), f["sp"]["file"], f["sp"]["line"])
+                continue
+            kind, st = unwrap(r)
+            try:
+                problem = chk(kind, st, [e for e in ev if e[0] != "fv"])
+                if problem and vlabel and isinstance(st, _Sym):
+                    # dead-continuation shortcut: a producer abstraction whose body never returns makes the other side unreachable
+                    # when the producer runs first - every shape of this table (data and codata consumers that are not abstractions)
+                    pb = binder_of(prod)
+                    if pb and st.name == "sh(%s)" % prod.fields["0"].fields["statement"].name and cons.variant != "Mu":
+                        problem = None
+            except (KeyError, AttributeError) as e:
+                raise AnalysisError("R-CUTKIND: the translation of %s is not a concrete statement (%r)" % (label, e))
+            if problem:
+                res.inst(ikey, f["sp"]["file"], f["sp"]["line"], "violation")
+                res.violate(ikey, "%s%s %s" % (label, vlabel, problem), f["sp"]["file"], f["sp"]["line"])
+            else:
+                res.inst(ikey, f["sp"]["file"], f["sp"]["line"], "ok")
+    # evaluation order of critical pairs <mu a.s | mu~ x.t>: at a data type or i64 the producer's body runs first, at a codata type the
+    # consumer's; the body that runs first is translated whatever the other one looks like - also when it never uses its binder
+    for tyname, ty_, first in (("data", TD, "s"), ("codata", TC, "t"), ("i64", I64, "s")):
+        prod, cons = mu(PRD, "a", V, "s", ty_), mu(CNS, "x", X, "t", ty_)
+        pa = _Adt(CL + "context::ContextBinding", "ContextBinding", {"var": ident("a", V), "chi": _Adt(CL + "context::Chirality", "Cns", {}), "ty": ty_})
+        px = _Adt(CL + "context::ContextBinding", "ContextBinding", {"var": ident("x", X), "chi": _Adt(CL + "context::Chirality", "Prd", {}), "ty": ty_})
+        for vlabel, fv in (("", {"s": [pa], "t": [px]}), (" [a unused in s]", {"s": [], "t": [px]}), (" [x unused in t]", {"s": [pa], "t": []})):
+            ikey = "<mu a.s | mu~ x.t> at a %s type%s" % (tyname, vlabel)
+            try:
+                paths, msg, ev = run(prod, cons, ty_, fv, multi=True)
+            except AnalysisError as e:
+                if vlabel:
+                    raise
+                res.notes.append("%s: not decided (%s)" % (ikey, str(e)[:120]))
+                break
+            if msg:
+                res.inst(ikey, f["sp"]["file"], f["sp"]["line"], "violation")
+                res.violate(ikey, "%s: %s" % (ikey, msg), f["sp"]["file"], f["sp"]["line"])
+                continue
+
+            def mentions(v, d=0):
+                v = v if not isinstance(v, _interp.Ref) else None
+                if isinstance(v, _Sym):
+                    return re.split(r"[.\[!{]", v.name[3:] if v.name.startswith("sh(") else v.name)[0] == first
+                if isinstance(v, _Adt) and d < 12:
+                    return any(mentions(x, d + 1) for x in v.fields.values())
+                if isinstance(v, _Vec) and d < 12:
+                    return any(mentions(x, d + 1) for x in v.items)
+                return False
+            missing = None
+            for o in paths:
+                shrunk = [e[1] for e in o.events if e[0] == "shrink"]
+                if not (any(re.split(r"[.\[!{]", n_)[0] == first for n_ in shrunk) or mentions(o.result)):
+                    missing = shrunk
+            shrunk = missing or []
+            if missing is None:
+                res.inst(ikey, f["sp"]["file"], f["sp"]["line"], "ok", "the body that runs first (%s) is translated on each of %d paths" % (first, len(paths)))
+            else:
+                res.inst(ikey, f["sp"]["file"], f["sp"]["line"], "violation")
+                res.violate(ikey, "%s: the body `%s`, which runs first at a %s type, is not part of the translation (translated: %s): the other side was "
+                            "taken to run first, so effects and non-termination of the two bodies happen in the wrong order or not at all" %
+                            (ikey, first, tyname, ", ".join(shrunk) or "nothing"), f["sp"]["file"], f["sp"]["line"])
     res.require_floor(16)
     return res
